@@ -79,6 +79,9 @@ def deliveries(rng, lines, quic, thorough):
     out.append(("dsb-short-line-block", None, [("before", b"#\n"), ("before", text(L))], {}))
     out.append(("dsb-before-bigendian", None, [("before", text(L))], {"le": False}))
     out.append(("file-bigendian", text(L), [], {"le": False}))
+    out.append(("dsb-before-idb", None, [("pre-idb", text(L))], {}))
+    out.append(("dsb-before-idb+after-idb", None, [("pre-idb", text(L[: len(L) // 2]) if len(L) > 1 else b"#\n"), ("before", text(L[len(L) // 2:]))], {}))
+    out.append(("dsb-before-idb+file", text(L[len(L) // 2:]) if len(L) > 1 else b"\n", [("pre-idb", text(L[: max(1, len(L) // 2)]))], {}))
     for cwd in ("/", "/dev/shm", "scratch"):
         out.append((f"dsb-only-no-s-cwd-{cwd.strip('/') or 'root'}", None, [("before", text(L))], {"no_s": True, "cwd": cwd}))
     if not quic:
@@ -106,6 +109,8 @@ def eval_case(case, rng, thorough):
     bad, classes, units = [], set(), 0
     for label, keyfile, dsbs, opts in deliveries(rng, lines, quic, thorough):
         blocks = list(pk)
+        pre = [("dsb", d_) for p_, d_ in dsbs if p_ == "pre-idb"]
+        dsbs = [(p_, d_) for p_, d_ in dsbs if p_ != "pre-idb"]
         for pos, data in dsbs:
             if pos == "before":
                 idx = 0
@@ -117,7 +122,7 @@ def eval_case(case, rng, thorough):
         if [p for p, _ in dsbs].count("before") > 1:      # keep several leading DSBs in their order
             lead = [("dsb", d) for p, d in dsbs if p == "before"]
             blocks = lead + [b for b in blocks if not (b[0] == "dsb" and b in lead)]
-        cap = ns.pcapng(blocks, le=opts.get("le", True))
+        cap = ns.pcapng(blocks, le=opts.get("le", True), pre_idb=pre)
         cwd = opts.get("cwd")
         if cwd == "scratch":
             cwd = None
